@@ -1,1 +1,2 @@
 import HvVar.Model.Collections
+import HvVar.Model.Columns
